@@ -66,57 +66,82 @@ def run(ctx):
     ctx.not_decided = ['quality of the operating system\'s CSPRNG']
     ev = Evaluator(p, 'ecdsa')
     mi = p.get_module('bip39')
-    with ctx.obligation('C08.SOURCE', 'bip39.random', None, mi.relpath) as ob:
-        fb = p.get_function('bip39.mnemonic_from_entropy_bits')
-        recv = set()
-        for n in ast.walk(fb.node):
-            if isinstance(n, ast.Call) and isinstance(n.func, ast.Attribute) and n.func.attr in ('getrandbits', 'randbits', 'token_bytes', 'urandom', 'randbytes'):
-                recv.add(ast.unparse(n.func.value))
-        ob.require(len(recv) == 1, 'mnemonic_from_entropy_bits draws from exactly one source', fb.where, found=sorted(recv))
-        for r in recv:
+    DRAW_METHODS = ('getrandbits', 'randbits', 'token_bytes', 'token_hex', 'urandom', 'randbytes', 'randint', 'randrange', 'choice',
+                    'choices', 'sample', 'shuffle', 'random', 'seed', 'uniform')
+    draws = []
+    for fi in p.functions.values():
+        for n in ast.walk(fi.node):
+            if isinstance(n, ast.Call) and isinstance(n.func, ast.Attribute) and n.func.attr in DRAW_METHODS:
+                draws.append((fi, n))
+    with ctx.obligation('C08.SOURCE', 'randomness draw sites', None, mi.relpath) as ob:
+        ob.require(len(draws) >= 1, 'the package draws randomness somewhere', mi.relpath)
+        for fi, n in draws:
+            where = '%s:%d' % (fi.module.relpath, n.lineno)
+            r = ast.unparse(n.func.value)
             name = r.split('.')[0]
-            v = ev.module_const('bip39', name) if name in mi.assigns else X.ext_value(mi.imports[name][1]) if name in mi.imports else T.opaque('?')
+            m = fi.module
+            if name in m.assigns:
+                v = Evaluator(p, 'ecdsa').module_const(m.name.split('.')[-1], name)
+            elif name in m.imports:
+                v = X.ext_value(m.imports[name][1])
+            else:
+                v = T.opaque('receiver %s is not a module-level name' % r)
             ok = T.is_op(v, 'CSPRNG') or (T.tag(v) == 'ext' and v[1] in ('secrets', 'os'))
-            ob.require(ok, 'the entropy source `%s` is not the operating system CSPRNG' % r, mi.relpath,
+            ob.require(ok, 'the entropy source `%s` used in %s is not the operating system CSPRNG' % (r, fi.qual[len(PKG) + 1:]), where,
                        expected='random.SystemRandom() / secrets / os.urandom', found=T.show(v))
+            ob.require(n.func.attr in ('getrandbits', 'randbits', 'token_bytes', 'urandom', 'randbytes'),
+                       'entropy is drawn with %s (not a bit/byte draw of stated size)' % n.func.attr, where)
+
+    def fresh_ok(t, bits):
+        """t == MNEMONIC(HEX(<bits//8 bytes drawn from the CSPRNG, all bits free>))"""
+        if not (T.is_op(t, 'MNEMONIC') and T.is_op(t[2], 'HEX')):
+            return False
+        b = t[2][2]
+        if T.is_op(b, 'SER') and b[3] == T.const(bits // 8) and b[4] == BIG and T.is_op(b[2], 'RANDBITS'):
+            d = b[2]
+            return T.is_op(d[2], 'CSPRNG') and d[3] == T.const(bits)
+        if T.is_op(b, 'RANDBYTES') and T.is_op(b[2], 'CSPRNG') and b[3] == T.const(bits // 8):
+            return True
+        return False
+    summ = dict(X.DEFAULT_SUMMARIES)
+    summ['bip39.mnemonic_from_entropy'] = lambda ev_, fi, env, facts: (T.raw_op('MNEMONIC', env[fi.params[0]]), facts)
+    T.STR_OPS.update({'MNEMONIC'})
+    BW = PKG + '.base_wallet.BaseWallet'
     fb = p.get_function('bip39.mnemonic_from_entropy_bits')
-    with ctx.obligation('C08.AMOUNT', 'bip39.mnemonic_from_entropy_bits', None, fb.where) as ob:
-        summ = dict(X.DEFAULT_SUMMARIES)
-        summ['bip39.mnemonic_from_entropy'] = lambda ev_, fi, env, facts: (T.raw_op('MNEMONIC', env[fi.params[0]]), facts)
+    entry = [
+        ('bip39.mnemonic_from_entropy_bits', lambda e, bits, words: e.call_function('bip39.mnemonic_from_entropy_bits', [T.const(bits)]), False),
+        ('BaseWallet.from_entropy_bits', lambda e, bits, words: e.call_function('base_wallet.BaseWallet.from_entropy_bits', [T.clsref(BW), T.const(bits)]), True),
+        ('BaseWallet.new_wallet', lambda e, bits, words: e.call_function('base_wallet.BaseWallet.new_wallet', [T.clsref(BW), T.const(words)]), True),
+    ]
+    with ctx.obligation('C08.AMOUNT', 'fresh mnemonics and wallets', None, fb.where) as ob:
+        for nm, call, is_wallet in entry:
+            e2 = Evaluator(p, 'ecdsa', summaries=summ)
+            for words, bits in ((12, 128), (15, 160), (18, 192), (21, 224), (24, 256)):
+                v, f = call(e2, bits, words)
+                nl = normal_leaves(v)
+                ob.require(len(nl) >= 1, '%s produces a result for %d words' % (nm, words), fb.where)
+                for cs, leaf in nl:
+                    mn = attr_of(e2, leaf, 'mnemonic', Facts(known_at(f, cs))) if is_wallet else leaf
+                    ob.require(fresh_ok(mn, bits), '%s: %d bits are drawn from the CSPRNG and serialised to %d bytes without masking, '
+                               'shifting or arithmetic' % (nm, bits, bits // 8), fb.where, found=T.show(mn, maxdepth=6))
+                    srcs = [x for x in T.walk(mn) if T.is_op(x) and x[1] in ('RANDBITS', 'RANDBYTES', 'RANDVAL', 'PRNG')]
+                    ob.require(len({x for x in srcs if x[1] != 'PRNG'}) == 1 and not any(x[1] in ('PRNG', 'RANDVAL') for x in srcs),
+                               '%s: the sentence depends on exactly one draw from the CSPRNG and on nothing else that varies' % nm,
+                               fb.where, found=[T.show(x, maxdepth=3) for x in srcs])
         e2 = Evaluator(p, 'ecdsa', summaries=summ)
-        src = e2.module_const('bip39', 'random')
-        for words, bits in ((12, 128), (15, 160), (18, 192), (21, 224), (24, 256)):
-            v, f = e2.call_function('bip39.mnemonic_from_entropy_bits', [T.const(bits)])
-            draw = T.raw_op('RANDBITS', src, T.const(bits))
-            exp = T.raw_op('MNEMONIC', T.raw_op('HEX', T.ser(draw, T.const(bits // 8), BIG)))
-            same_term(ob, v, exp, '%d bits are drawn and serialised to %d bytes without masking or arithmetic' % (bits, bits // 8), fb.where)
         x = S('bits', type='int')
         facts = Facts()
         for b in (128, 160, 192, 224, 256):
             facts = facts.add(T.not_(T.eq(T.const(b), x)))
-        v, f = e2.call_function('bip39.mnemonic_from_entropy_bits', [x], facts=facts)
-        ob.require(all(T.tag(l) == 'raise' for l in distinct_leaves(v)), 'a size outside {128,...,256} is not refused', fb.where)
+        for q, args in (('bip39.mnemonic_from_entropy_bits', [x]), ('base_wallet.BaseWallet.from_entropy_bits', [T.clsref(BW), x])):
+            v, f = e2.call_function(q, args, facts=facts)
+            ob.require(all(T.tag(l) == 'raise' for l in distinct_leaves(v)), '%s: a size outside {128,...,256} is not refused' % q.split('.', 1)[1],
+                       p.get_function(q).where)
         v, f = e2.call_function('bip39.mnemonic_from_entropy_bits', [])
-        v2, _ = e2.call_function('bip39.mnemonic_from_entropy_bits', [T.const(256)])
-        same_term(ob, v, v2, 'default is 256 bits', fb.where)
+        ob.require(all(fresh_ok(l, 256) for l in distinct_normal_leaves(v)) and distinct_normal_leaves(v), 'default is 256 bits', fb.where)
         tbl = e2.module_const('bip39', 'MNEMONIC_LENGTH_TO_ENTROPY_BITS')
         same_term(ob, tbl, T.dct([(T.const(n), T.const(32 * n // 3)) for n in (12, 15, 18, 21, 24)]), 'N words need 32N/3 bits',
                   mi.relpath)
-    with ctx.obligation('C08.ROUTE', 'fresh-entropy route', None, fb.where) as ob:
-        callers = {cs.caller.qual[len(PKG) + 1:] for cs in p.callers_of(fb) if cs.caller is not None}
-        ob.require(callers == {'base_wallet.BaseWallet.from_entropy_bits'}, 'mnemonic_from_entropy_bits is reached only from from_entropy_bits',
-                   fb.where, found=sorted(callers))
-        feb = p.get_function('base_wallet.BaseWallet.from_entropy_bits')
-        callers = {cs.caller.qual[len(PKG) + 1:] for cs in p.callers_of(feb) if cs.caller is not None}
-        ob.require(callers == {'base_wallet.BaseWallet.new_wallet'}, 'from_entropy_bits is reached only from new_wallet', feb.where,
-                   found=sorted(callers))
-        draws = []
-        for fi in p.functions.values():
-            for n in ast.walk(fi.node):
-                if isinstance(n, ast.Call) and isinstance(n.func, ast.Attribute) and n.func.attr in (
-                        'getrandbits', 'randbits', 'token_bytes', 'urandom', 'randbytes', 'randint', 'randrange', 'choice', 'random', 'seed'):
-                    draws.append((fi.qual[len(PKG) + 1:], n.lineno))
-        ob.require([d[0] for d in draws] == ['bip39.mnemonic_from_entropy_bits'], 'randomness is drawn in exactly one place', fb.where, found=draws)
     with ctx.obligation('C08.NOPRNG', 'package-wide weak randomness', None, 'btc_hd_wallet/') as ob:
         ctrl = _weak_randomness(ast.parse(PLANTED), set())
         if len(ctrl) < 8:
